@@ -26,6 +26,42 @@ def has_typed_addl(s):
     return False
 
 
+NG_LEAVES = [({"type": "integer", "multipleOf": 2.5}, 5), ({"type": "integer", "multipleOf": 12.5}, 25), ({"type": "integer", "multipleOf": 3}, 6), ({"type": "number", "multipleOf": 0.5}, 1.5),
+             ({"type": "integer", "minimum": 1}, 2), ({"type": "integer", "exclusiveMaximum": 10, "exclusiveMinimum": 0}, 5), ({"type": "number", "maximum": 1.5}, 1),
+             ({"type": "string", "minLength": 1, "maxLength": 3}, "ab"), ({"type": "string", "pattern": "^a"}, "ab"), ({"type": "array", "items": {"type": "string"}, "minItems": 1, "maxItems": 2}, ["a"]),
+             ({"type": "string", "format": "date"}, "2024-01-02"), ({"type": "string", "enum": ["a", "b"]}, "a"), ({"type": "integer", "enum": [1, 2]}, 1),
+             ({"type": "object", "properties": {"q": {"type": "string"}}, "required": ["q"]}, {"q": "x"})]
+
+
+def nil_guard_cases():
+    """every kind of check on a field that may be nil - optional, nullable and required, nullable and optional - against documents that leave the key out, give
+    null for it, or are null themselves; through both decoders and with --min-sized-ints for the integer leaves (integers with a fractional multipleOf included:
+    only totality is judged here)"""
+    from vlib.kitchen import Case
+    out = []
+    n = 0
+    for leaf, good in NG_LEAVES:
+        for nullab in ("optional", "nullable-required", "nullable-optional", "nullable-first"):
+            lf = dict(leaf)
+            if nullab != "optional":
+                if "enum" in lf or lf["type"] == "object" or "format" in lf:
+                    continue          # (a nullable format does not compile: recorded finding C01-nullable-format-import)
+                lf["type"] = ["null", lf["type"]] if nullab == "nullable-first" else [lf["type"], "null"]
+            root = {"type": "object", "properties": {"k": {"type": "string"}, "v": lf, "w": dict(lf)}}
+            if nullab in ("nullable-required", "nullable-first"):
+                root["required"] = ["v"]
+            docs = [{"doc": {}, "cls": "absent", "path": ()}, {"doc": {"v": None}, "cls": "null", "path": ()}, {"doc": None, "cls": "null-document", "path": ()},
+                    {"doc": {"v": good, "w": None}, "cls": "valid", "path": ()}, {"doc": {"k": "x", "w": good}, "cls": "other-key", "path": ()},
+                    {"doc": {"v": None}, "cls": "null+prior", "path": (), "prior": json.dumps({"v": good, "k": "kept"})}]
+            frac = leaf.get("type") == "integer" and isinstance(leaf.get("multipleOf"), float)
+            for wire in ("json", "yaml"):
+                for ms in ((False, True) if leaf.get("type") == "integer" and "enum" not in leaf else (False,)):
+                    out.append(Case("c19ng%d" % n, root, [dict(d) for d in docs], fam="nil-guards/%s/%s" % (nullab, wire), extra_imports=True, wire=wire, minsized=ms,
+                                    no_model=frac or wire == "yaml"))
+                    n += 1
+    return out
+
+
 def run(ctx):
     ctx.proof_step(PROPS_FILE)
     n = 40 if ctx.tier == "quick" else 500
@@ -100,6 +136,7 @@ def run(ctx):
         for v in SHAPES:
             docs.append({"doc": v, "cls": "shape", "path": ()})
         cases2.append(Case("c19tn" + wire, tn, docs, fam="template-names/" + wire, extra_imports=True, wire=wire, no_model=True))
+    cases2 += nil_guard_cases()
     run_cases(ctx, cases2, "c19i")
     # the inner types of the composite cases (known only after generation)
     cases3 = []
